@@ -206,7 +206,7 @@ def which_path(sc):
     return "defaults" if sc["decls"] else "nothing"
 
 
-def run_scenario(sc, cfg=RUN_CONFIGS[0]):
+def run_scenario(sc, cfg=RUN_CONFIGS[0], two_routes=False):
     """one real research.backtest; returns the events (self.hp at the first and at the last step)"""
     from jesse.strategies import Strategy
     from .. import session
@@ -239,10 +239,10 @@ def run_scenario(sc, cfg=RUN_CONFIGS[0]):
         def before(self):
             if self._first:
                 self._first = False
-                obs("first", self.hp)
+                obs("first" if self.symbol == 'BTC-USDT' else "first-of-route-2", self.hp)
 
         def terminate(self):
-            obs("last", self.hp)
+            obs("last" if self.symbol == 'BTC-USDT' else "last-of-route-2", self.hp)
 
     if sc["decls"]:
         decls = [{'name': d["name"], 'type': pytype(d["typ"]), 'min': bound(d["mn"], 2), 'max': bound(d["mx"], 2),
@@ -258,8 +258,10 @@ def run_scenario(sc, cfg=RUN_CONFIGS[0]):
             explicit[name] = n if d == 1 else n / d
     sim, tf, dtf, _step = cfg
     candles = {'BTC-USDT': session.lattice_walk(60, 5)}          # 60 minutes: a multiple of every timeframe used
+    if two_routes:
+        candles['ETH-USDT'] = session.lattice_walk(60, 6, start=150)
     out = session.run_backtest(None, session.futures_config(), candles, strategy_cls=S, hyperparameters=explicit,
-                               routes=[{'symbol': 'BTC-USDT', 'timeframe': tf}],
+                               routes=[{'symbol': sym, 'timeframe': tf} for sym in candles],
                                data_routes=([{'symbol': 'BTC-USDT', 'timeframe': dtf}] if dtf else None), fast=(sim == "fast"))
     if out["exc"] is not None and not seen:
         seen.append({"at": "first", "exc": out["exc"].split(":")[0], "set": False, "vals": [], "intsok": True})
@@ -417,12 +419,23 @@ def run(ctx):
             counters[w] = i + 1
             cfgs = [RUN_CONFIGS[i % len(RUN_CONFIGS)]]
         for cfg in cfgs:
-            plan.append((s_, cfg))
-    for k, (s_, cfg) in enumerate(plan):
+            plan.append((s_, cfg, False))
+        # explicit hyper-parameters with two routes: BOTH strategies must see exactly the explicit values (the values a
+        # second route gets from dna() are outside the statement and not judged)
+        if sc["hasExplicit"]:
+            j = counters.get("two", 0)
+            counters["two"] = j + 1
+            if j % 3 == 0:
+                plan.append((s_, [c for c in RUN_CONFIGS if c[2] is None][(j // 3) % 4], True))
+    two_cells = {}
+    for k, (s_, cfg, two) in enumerate(plan):
         sc = s_["sc"]
-        ev = run_scenario(sc, cfg)
-        hp_traces.append({"id": k + 1, "hdr": dict(sc, sim=cfg[0], routes="%s%s" % (cfg[1], "+" + cfg[2] if cfg[2] else "")), "ev": ev,
-                          "_cfg": cfg})
+        ev = run_scenario(sc, cfg, two)
+        if two:
+            two_cells[cfg[0]] = two_cells.get(cfg[0], 0) + (1 if len(ev) >= 4 else 0)
+        hp_traces.append({"id": k + 1, "hdr": dict(sc, sim=cfg[0], routes="%s%s%s" % (cfg[1], "+" + cfg[2] if cfg[2] else "",
+                                                                                          " x2 routes" if two else "")), "ev": ev,
+                          "_cfg": list(cfg) + [two]})
         combo = (sc["hasExplicit"], len(sc["dna"]) > 0, len(sc["decls"]) > 0)
         combos.add(combo)
         cell = (which_path(sc), cfg[0], "step=1" if cfg[3] == 1 else "step>1")
@@ -436,6 +449,9 @@ def run(ctx):
             for st in ("step=1", "step>1"):
                 if not cells.get((w, sim, st)):
                     raise Machinery("HpInjection: no scenario run for cell %r" % ((w, sim, st),))
+    for sim in ("step", "fast"):
+        if not two_cells.get(sim):
+            raise Machinery("HpInjection: no two-route explicit run reported from both strategies under the %s simulator" % sim)
     cfg_of = {t["id"]: t.pop("_cfg") for t in hp_traces}
     v2, res2 = tlc.validate_traces("TraceHp", "TraceHp.cfg", hp_traces, ctx.scratch, parts=4, timeout=600)
     hp_bad = 0
@@ -456,7 +472,7 @@ def run(ctx):
         "seq_traces": tid - n_decl, "free_float_declarations": n_free, "rejected_traces": bad + hp_bad,
         "alphabet": {"length": len(charset), "first": ord(charset[0]), "last": ord(charset[-1])},
         "model_agreement": agree, "model_counterexample_fractional_int": model_cex,
-        "hp_scenarios": len(scen), "hp_runs": len(plan),
+        "hp_scenarios": len(scen), "hp_runs": len(plan), "hp_two_route_explicit_runs": sum(1 for x in plan if x[2]),
         "hp_cells_path_simulator_step": {"%s|%s|%s" % c: n for c, n in sorted(cells.items())}, "hp_combinations_of_8": len(combos),
         "trace_events_checked_by_tlc": sum(x.generated for x in results) + sum(x.generated for x in res2),
         "knife_edge": "rounding ties exist only at the first/last letter (TiesOnlyAtEnds, checked by TLC), where the float "
@@ -471,7 +487,8 @@ def run(ctx):
 def replay(ctx, rp):
     p = rp["payload"]
     if p["kind"] == "hp":
-        ev = run_scenario(p["sc"], tuple(p["cfg"]) if p.get("cfg") else RUN_CONFIGS[0])
+        c_ = p.get("cfg") or list(RUN_CONFIGS[0])
+        ev = run_scenario(p["sc"], tuple(c_[:4]), bool(c_[4]) if len(c_) > 4 else False)
         v, _ = tlc.validate_traces("TraceHp", "TraceHp.cfg", [{"id": 1, "hdr": p["sc"], "ev": ev}], ctx.scratch, parts=1)
         l, verdict = v[1]
         print("replay verdict:", l, verdict, json.dumps(ev))
